@@ -160,6 +160,15 @@ class Ctx:
             case, res = holder['last']
             self.violations.append({'sub': sub, 'key': res.key, 'detail': res.detail, 'case': case})
             return False
+        except hypothesis.errors.Flaky as e:
+            # the oracle failed once and passed when Hypothesis re-executed the same case: the code under test leaked state between
+            # executions (e.g. a module- or class-level cache).  The first failure is real and is reported as such.
+            if holder['last'] is None:
+                raise HarnessError(f"{sub}: run_case is not a pure function of the case: {e!r}") from e
+            case, res = holder['last']
+            self.violations.append({'sub': sub, 'key': res.key, 'case': case,
+                                    'detail': str(res.detail) + ' [did not fail again on immediate re-execution: state leaks between executions]'})
+            return False
         except hypothesis.errors.FailedHealthCheck as e:
             raise HarnessError(f"{sub}: generator health check failed: {e}") from e
         except hypothesis.errors.Unsatisfiable as e:
@@ -186,6 +195,13 @@ class Ctx:
         except _Violation:
             case, key, detail = holder['last']
             self.violations.append({'sub': sub, 'key': key, 'detail': detail, 'case': case})
+            return False
+        except hypothesis.errors.Flaky as e:
+            if holder['last'] is None:
+                raise HarnessError(f"{sub}: machine is not deterministic: {e!r}") from e
+            case, key, detail = holder['last']
+            self.violations.append({'sub': sub, 'key': key, 'case': case,
+                                    'detail': str(detail) + ' [did not fail again on immediate re-execution: state leaks between executions]'})
             return False
         except hypothesis.errors.FailedHealthCheck as e:
             raise HarnessError(f"{sub}: machine health check failed: {e}") from e
